@@ -256,9 +256,15 @@ func checkC13(c *core.Ctx) {
 			d.Sun, d.Verd, d.ET0 = gen.None, gen.None, gen.None
 		}
 		a.Weather.Layout, a.Weather.NumHeader, a.Weather.HasSun, a.Weather.HasVerd = 1, 2, false, false
+		if v%2 == 0 {
+			// monthly precipitation correction on (factors that differ from month to month): the corrected rain of a day
+			// depends on the month the reader assigns it to, in every layout alike
+			a.Cfg.PreCorr = 1
+			a.Weather.Preco = []int{131, 128, 120, 112, 105, 102, 101, 103, 107, 114, 122, 129}
+		}
 		b = clone(a, fmt.Sprintf("wb%d", v))
 		b.Weather.Layout, b.Weather.NumHeader = 0, 1
-		add(&pairCase{Name: a.Name, What: "weather layout 1 vs 0", A: a, B: b})
+		add(&pairCase{Name: a.Name, What: fmt.Sprintf("weather layout 1 vs 0 (precipitation correction %d)", a.Cfg.PreCorr), A: a, B: b})
 		// the day-of-year layout derives the mean temperature as (tmin + tmax) / 2 in floating point: whole-degree
 		// extremes make that mean an exact binary number with one decimal, the same number the other layout reads
 		a2 := clone(a, fmt.Sprintf("wd%d", v))
@@ -412,6 +418,75 @@ func checkC18(c *core.Ctx) {
 					Meta: map[string]interface{}{"crop": crop, "key": key, "value": sp.invalid, "invalid": true}})
 			}
 		}
+	}
+	// special groups (always run): (a) perennial crop files (cut grassland GR, alfalfa AA) continued from the preceding
+	// crop and from entry to entry; (b) rotations whose crop file names are prefixes of one another (WR, WRA, WRC): the
+	// override is bound to exactly one file
+	special := func(tag string, crops []string, first string, cropFile string, key, val string, spName string, stage int, salt int64, classic bool) {
+		idx++
+		base := baseEquivProject(c, fmt.Sprintf("s%s%d", tag, idx), salt, crops)
+		if tag == "prefix" {
+			// four years of winter crops, all of the look-alike crop files in turn (the overridden one not first)
+			base = gen.Random(rngFor(c, salt), base.Name, gen.Opts{Years: 4, MinLayers: 6, MaxLayers: 12, Crops: crops, Schedules: true, ETMethods: []int{3}, DateFormats: []int{1},
+				StartYearMin: 1970, StartYearMax: 2020})
+			base.Cfg.ResultFormat, base.Cfg.ResultExt = 1, "csv"
+			base.SetVerificationOutputs()
+			order := []string{"WRA", "WR", "WRC"}
+			if cropFile == "WRA" {
+				order = []string{"WR", "WRA", "WRC"}
+			}
+			for i := 1; i < len(base.Rotation); i++ {
+				base.Rotation[i].Crop = order[(i-1)%3]
+			}
+		}
+		if first != "" {
+			base.Rotation[0].Crop = first
+		}
+		if classic {
+			base.Cfg.CropParamFmt = "txt"
+			a := clone(base, fmt.Sprintf("sc%d", idx))
+			a.ExtraArgs = []string{"CropFile=PARAM." + cropFile, key + "=" + val}
+			b := clone(base, fmt.Sprintf("sd%d", idx))
+			edited := filepath.Join(c.Scratch, fmt.Sprintf("param_editc_%d", idx))
+			core.CopyTree(paramSrc, edited)
+			f := filepath.Join(edited, "PARAM."+cropFile)
+			out, code, _ := core.Run(c.Scratch, nil, time.Minute, nil, worker, "cropedit", "-fmt", "txt", "-in", f, "-out", f, "-param", spName, "-stage", fmt.Sprint(stage), "-value", val)
+			if code != 0 {
+				c.Infof("edit of classic %s %s not possible (%s): pair skipped", cropFile, key, strings.TrimSpace(out))
+				return
+			}
+			pairs = append(pairs, &pairCase{Name: a.Name, What: fmt.Sprintf("%s: override %s=%s for PARAM.%s on the line vs edited classic file, rotation crops %v after %s", tag, key, val, cropFile, crops, base.Rotation[0].Crop), A: a, B: b, ParamB: edited,
+				Meta: map[string]interface{}{"crop": cropFile, "key": key, "value": val, "group": tag, "format": "classic"}})
+			return
+		}
+		base.Cfg.CropParamFmt = "yml"
+		a := clone(base, fmt.Sprintf("sa%d", idx))
+		a.ExtraArgs = []string{"CropFile=PARAM." + cropFile + ".yml", key + "=" + val}
+		b := clone(base, fmt.Sprintf("sb%d", idx))
+		edited := filepath.Join(c.Scratch, fmt.Sprintf("param_edit_%d", idx))
+		core.CopyTree(ymlParams, edited)
+		f := filepath.Join(edited, "PARAM."+cropFile+".yml")
+		out, code, _ := core.Run(c.Scratch, nil, time.Minute, nil, worker, "cropedit", "-in", f, "-out", f, "-param", spName, "-stage", fmt.Sprint(stage), "-organ", "0", "-value", val)
+		if code != 0 {
+			c.Infof("edit of %s %s not possible (%s): pair skipped", cropFile, key, strings.TrimSpace(out))
+			return
+		}
+		pairs = append(pairs, &pairCase{Name: a.Name, What: fmt.Sprintf("%s: override %s=%s for PARAM.%s on the line vs edited YAML file, rotation crops %v after %s", tag, key, val, cropFile, crops, base.Rotation[0].Crop), A: a, B: b, ParamA: ymlParams, ParamB: edited,
+			Meta: map[string]interface{}{"crop": cropFile, "key": key, "value": val, "group": tag}})
+	}
+	for k, crop := range []string{"GR", "AA"} {
+		special("perennial", []string{crop}, crop, crop, "c_INITCONCNBIOM", []string{"3.5", "4.5"}[k], "INITCONCNBIOM", 0, 1870+int64(k), false)
+		special("perennial", []string{crop}, crop, crop, "c_INITCONCNROOT", []string{"1.2", "2.2"}[k], "INITCONCNROOT", 0, 1874+int64(k), k == 1)
+		if !c.Quick() {
+			special("perennial", []string{crop}, "SM", crop, "c_MAXAMAX", "35", "MAXAMAX", 0, 1878+int64(k), false)
+		}
+	}
+	for k, fileCrop := range []string{"WR", "WR", "WRA"} {
+		if c.Quick() && k == 1 {
+			continue
+		}
+		special("prefix", []string{"WR", "WRA", "WRC"}, "", fileCrop, "c_MAXAMAX", []string{"35", "62.5", "35"}[k], "MAXAMAX", 0, 1880+int64(k), true)
+		special("prefix", []string{"WR", "WRA", "WRC"}, "", fileCrop, "c_MAXAMAX", []string{"35", "62.5", "35"}[k], "MAXAMAX", 0, 1880+int64(k), false)
 	}
 	trace := filepath.Join(c.Sub("pairs"), "trace.ndjson")
 	runPairs(c, worker, pairs, trace)
